@@ -27,6 +27,7 @@ pub struct Fold {
     /// for position k>=1: the action and seq of its last reduce.begin / first event
     pub pos_action: Vec<u32>,
     pub pos_last_rbeg: Vec<u64>,
+    pub pos_state: Vec<St>,
     pub final_digest: u64,
     pub reduced: HashSet<u32>,
 }
@@ -39,6 +40,7 @@ pub fn fold(h: &Hist, s: u8, v: &mut Verdicts, report: bool) -> Fold {
         intermediate: HashSet::new(),
         pos_action: vec![0],
         pos_last_rbeg: vec![0],
+        pos_state: vec![St::initial(s)],
         final_digest: 0,
         reduced: HashSet::new(),
     };
@@ -58,6 +60,7 @@ pub fn fold(h: &Hist, s: u8, v: &mut Verdicts, report: bool) -> Fold {
             f.pos_of.insert(cur.digest(), f.pos_action.len());
             f.pos_action.push(a);
             f.pos_last_rbeg.push(last_rbeg);
+            f.pos_state.push(cur.clone());
         }
     };
     for &i in &sh.rc {
@@ -660,4 +663,22 @@ pub fn c08(h: &Hist, s: u8, v: &mut Verdicts) {
         v.nontrivial.insert("C08");
     }
     let _ = sh;
+}
+
+/// The notification stream a registered direct subscriber must see: notifying actions in taken
+/// order with the state each produced. (action, state digest, selected value, seq of first event)
+pub fn notif_stream(h: &Hist, s: u8, f: &Fold) -> Vec<(u32, u64, u8, u64)> {
+    let sh = &h.st[s as usize];
+    let mut out = Vec::new();
+    for a in &sh.taken {
+        let ar = &sh.acts[a];
+        if ar.vetoed() || ar.bd_done() || ar.notifying() != Some(true) {
+            continue;
+        }
+        if let Some(p) = ar.post() {
+            let sel = f.pos_of.get(&p).map(|i| f.pos_state[*i].sel).unwrap_or(255);
+            out.push((*a, p, sel, ar.first));
+        }
+    }
+    out
 }
